@@ -22,6 +22,9 @@ BASE = {
     "tsd": ("TSD", {1: [cd.op("set", (1,), (1,)), cd.op("set", (2,), (2,))], 2: [cd.op("del", (), (1,))], 3: [cd.op("set", (3,), (3,))]}, 4),
     # composite invalidation: the whole bundle in cycle 2 (both fields written before), a later write in cycle 4
     "tsbi": ("TSB", {1: [cd.op("set", (0,), (1,)), cd.op("set", (1,), (2,))], 2: [cd.op("inv")], 4: [cd.op("set", (1,), (5,))]}, 5),
+    # dynamic list: three distinct children tick in cycle 2 (the per-cycle ring of modified children holds three entries)
+    "dtsl": ("DTSL", {1: [cd.op("set", (0,), (1,)), cd.op("set", (1,), (1,))],
+                      2: [cd.op("set", (0,), (2,)), cd.op("set", (2,), (2,)), cd.op("set", (3,), (3,))], 3: [cd.op("set", (4,), (1,))]}, 4),
     "tsw": ("TSW", {1: [cd.op("push", (), (1,))], 2: [cd.op("push", (), (2,))], 3: [cd.op("push", (), (3,))], 4: [cd.op("push", (), (4,))]}, 5),
 }
 
@@ -131,6 +134,20 @@ def c_child_survives_invalidation(ev):    # cycle 5 (after the later write of fi
     o["ch"][0]["lmt"] = 1
 
 
+def c_dynamic_list_drops_modified_child(ev):   # cycle 2: the earliest of three modified children vanishes from the delta
+    e = ev[probe(ev, 2)]
+    o = e["o"]
+    o["mi"] = o["mi"][1:]
+    o["dv"] = [{"m": o["dv"][0]["m"][1:]}]
+    e["cap"] = [{"m": e["cap"][0]["m"][1:]}]
+
+
+def c_dynamic_list_size(ev):                   # cycle 4 (idle): the list shrank
+    o = ev[probe(ev, 4)]["o"]
+    o["ch"] = o["ch"][:-1]
+    o["sz"] -= 1
+
+
 def c_window_order(ev):
     o = ev[probe(ev, 4)]["o"]
     o["v"] = list(reversed(o["v"]))
@@ -194,6 +211,8 @@ CORRUPTIONS = [
     ("tsd", "CollTrace", "captured delta misses the added key", c_tsd_capture_misses_key, "C05.value_is_not_previous_plus_delta@consumer.capture_delta"),
     ("tsbi", "CollTrace", "invalidated bundle stays valid (a child kept its value)", c_bundle_survives_invalidation, "C04.valid_after_invalidation@consumer.root.TSB"),
     ("tsbi", "CollTrace", "child of an invalidated bundle valid again without a write", c_child_survives_invalidation, "C04.valid_after_invalidation@consumer.child.TS"),
+    ("dtsl", "CollTrace", "dynamic list: drop one of three modified children", c_dynamic_list_drops_modified_child, "C05.value_is_not_previous_plus_delta@consumer."),
+    ("dtsl", "CollTrace", "dynamic list shrinks", c_dynamic_list_size, "C05.list_size_is_not_the_net_effect_of_the_mutations"),
     ("tsw", "CollTrace", "window order reversed", c_window_order, "C05.window_is_not_last_n_pushes"),
     ("tsw", "CollTrace", "window all_valid below the minimum count", c_window_valid_early, "C05.window_valid_before_min_count"),
     ("tss", "RecordReplayTrace", "change a replayed delta", c_replayed_delta, "C20.replayed_delta_differs"),
